@@ -28,7 +28,7 @@ RULE = ("Generated plugin definitions: 1..8 parameters of types volume/sld/'' (o
 ASSUMPTIONS = ["sasmodels.special provides the C names for the Python rendering (the documented way to write portable models)",
                "invalid points: C uses the validity string, Python returns NaN (the documented Python convention)"]
 REQUIRED_MONITORS = ["python_equals_c", "both_equal_formula", "ill_formed_rejected"]
-REQUIRED_BUCKETS = {"quick": ["has:vector", "has:shell_volume", "has:radius_effective", "has:valid", "dim:1d", "dim:2d",
+REQUIRED_BUCKETS = {"quick": ["has:vector", "has:shell_volume", "has:radius_effective", "has:valid", "has:orientation", "dim:1d", "dim:2d",
                               "mesh:mono", "mesh:>=2dims", "trunc:1", "trunc:0", "cutoff>0", "invalid_points>0",
                               "mono_invalid", "lane:asan"]}
 REQUIRED_BUCKETS["thorough"] = REQUIRED_BUCKETS["quick"]
@@ -121,8 +121,16 @@ def gen_definition(rng, d):
     valid = None
     if rng.random() < 0.5 and nvol >= 2:
         valid = ("<", ("v", vols[0]), ("*", ("k", 1.6), ("v", vols[1])))      # radius < 1.6*thick
+    oriented = bool(d % 5 == 4)
+    iqac = None
+    if oriented:
+        # C-only variant: an axially symmetric 2-D function; the angles come last, after any vector parameter
+        pars.append(["theta", "degrees", 60, [-360, 360], "orientation", "latitude"])
+        pars.append(["phi", "degrees", 60, [-360, 360], "orientation", "longitude"])
+        L0 = lens[int(rng.integers(len(lens)))]
+        iqac = ("*", iq, ("+", ("k", 1.0), ("*", ("k", 0.5), ("f", "cos", ("*", ("v", "qc"), L0)))))
     return {"pars": pars, "vols": vols, "has_vector": has_vector, "iq": iq, "form": form, "shell": shell,
-            "modes": modes, "valid": valid, "slds": slds, "plain": plain}
+            "modes": modes, "valid": valid, "slds": slds, "plain": plain, "oriented": oriented, "iqac": iqac}
 
 
 def txt(e):
@@ -178,7 +186,7 @@ def write_files(defn, name, dirpath, ill=None):
     partxt = ",\n    ".join("[%r, %r, %r, [%s, %s], %r, %r]" % (p[0], p[1], p[2], _lim(p[3][0]), _lim(p[3][1]), p[4], p[5])
                              for p in pars)
     vol_args = [p[0].split("[")[0] for p in defn["pars"] if p[4] == "volume"]
-    iq_args = [p[0].split("[")[0] for p in defn["pars"]]
+    iq_args = [p[0].split("[")[0] for p in defn["pars"] if p[4] != "orientation"]
     head = ('r"""generated plugin %s"""\nfrom numpy import inf\nname = %r\ntitle = "generated"\ndescription = "generated"\n'
             'category = "shape:sphere"\nparameters = [\n    %s\n]\n' % (name, name, partxt))
     modes_txt = "radius_effective_modes = [%s]\n" % ", ".join(repr("mode %d" % (m + 1)) for m in range(len(defn["modes"]))) \
@@ -186,6 +194,8 @@ def write_files(defn, name, dirpath, ill=None):
     # ---- C rendering
     c = head + modes_txt
     c += 'Iq = """\n    return %s;\n"""\n' % txt(defn["iq"])
+    if defn.get("iqac") is not None:
+        c += 'Iqac = """\n    const double q = sqrt(qab*qab + qc*qc);\n    return %s;\n"""\n' % txt(defn["iqac"])
     c += 'form_volume = """\n    return %s;\n"""\n' % txt(defn["form"])
     cdecl = ", ".join(("double *%s" % a if a == "shell" else "double %s" % a) for a in vol_args)
     ccode = ""
@@ -251,6 +261,8 @@ def expand(defn, pars):
     env = {}
     for p in defn["pars"]:
         nm = p[0].split("[")[0]
+        if p[4] == "orientation":
+            continue
         if "[" in p[0]:
             env[nm] = [pars["%s%d" % (nm, j)] for j in range(1, 4)]
         else:
@@ -266,6 +278,8 @@ def formula(defn, info, mesh, q, dim, cutoff, mode):
     names = [p.name for p in cp[2:2 + n]]
     axes = [list(zip([float(x) for x in np.ravel(c[1])], [float(x) for x in np.ravel(c[2])])) for c in cols]
     qs = [float(x) for x in q[0]] if dim == "1d" else [math.hypot(a, b) for a, b in zip(q[0], q[1])]
+    oriented2d = bool(defn.get("oriented")) and dim == "2d"
+    view = {nm: float(c[0]) for nm, c in zip(names, cols) if nm in ("theta", "phi")}
     sw, swf, sws, swr = [], [], [], []
     f2 = [[] for _ in qs]
     ninv = 0
@@ -289,7 +303,13 @@ def formula(defn, info, mesh, q, dim, cutoff, mode):
             swr.append(w*ev(defn["modes"][mode-1], env))
         for j, qq in enumerate(qs):
             env["q"] = qq
-            f2[j].append(w*ev(defn["iq"], env))
+            if oriented2d:
+                qa, qb, qc = sas.particle_q(float(q[0][j]), float(q[1][j]), view["theta"], view["phi"], 0.0,
+                                            pt.get("theta", 0.0), pt.get("phi", 0.0), 0.0)
+                env["qc"] = qc
+                f2[j].append(w*ev(defn["iqac"], env))
+            else:
+                f2[j].append(w*ev(defn["iq"], env))
     W = math.fsum(sw)
     if W == 0:
         return {"F2": np.zeros(len(qs)), "W": 0.0, "shell": 1.0, "ratio": None, "R": 0.0, "invalid": ninv}
@@ -307,8 +327,15 @@ def run_case(case, rec):
     name = "rtm_gen_%04d_%d" % (d, case["seed"])
     cpath, ppath = write_files(defn, name, dirpath)
     try:
-        cinfo, pinfo = sascore.load_model_info(cpath), sascore.load_model_info(ppath)
-        cmodel, pmodel = sascore.build_model(cinfo, platform="dll"), sascore.build_model(pinfo, platform="dll")
+        cinfo = sascore.load_model_info(cpath)
+        cmodel = sascore.build_model(cinfo, platform="dll")
+        if defn["oriented"]:
+            # oriented definitions exist in C only (oriented Python models are refused by design)
+            pmodel = None
+            rec.bucket("has:orientation")
+        else:
+            pinfo = sascore.load_model_info(ppath)
+            pmodel = sascore.build_model(pinfo, platform="dll")
     except Exception as exc:
         rec.check("well_formed_definition_builds", False, {"definition": open(cpath).read()[:1500], "exception": repr(exc)[:1500]})
         return
@@ -336,6 +363,8 @@ def run_case(case, rec):
                 pars[p.name] = float(rng.uniform(-1, 7))
             elif p.type == "volume":
                 pars[p.name] = float(rng.uniform(5, 90))
+            elif p.type == "orientation":
+                pars[p.name] = float(rng.uniform(-170, 170))
             else:
                 pars[p.name] = float(rng.uniform(max(lo, 0.1), min(hi, 3.0)))
         shape = ["mono", "pd1", "pd2", "pd3", "trunc1", "trunc0", "mono_invalid", "pd2"][c % 8]
@@ -382,13 +411,14 @@ def run_case(case, rec):
         q = [q1] if dim == "1d" else [q1*np.cos(0.7), q1*np.sin(0.7)]
         rec.bucket("dim:" + dim)
         mode = int(rng.integers(0, len(defn["modes"]) + 1))
-        kc, kp = cmodel.make_kernel(q), pmodel.make_kernel(q)
+        kc = cmodel.make_kernel(q)
+        kp = pmodel.make_kernel(q) if pmodel is not None else None
         ctx = {"definition": d, "shape": shape, "dim": dim, "pars": pars, "cutoff": cutoff, "mode": mode,
                "Iq": txt(defn["iq"])[:300], "valid": txt(defn["valid"]) if defn["valid"] is not None else None}
         Ic = np.asarray(direct_model.call_kernel(kc, dict(pars), cutoff=cutoff), float)
-        Ip = np.asarray(direct_model.call_kernel(kp, dict(pars), cutoff=cutoff), float)
+        Ip = np.asarray(direct_model.call_kernel(kp, dict(pars), cutoff=cutoff), float) if kp is not None else Ic
         Fc = direct_model.call_Fq(kc, dict(pars, radius_effective_mode=mode), cutoff=cutoff)
-        Fp = direct_model.call_Fq(kp, dict(pars, radius_effective_mode=mode), cutoff=cutoff)
+        Fp = direct_model.call_Fq(kp, dict(pars, radius_effective_mode=mode), cutoff=cutoff) if kp is not None else Fc
         mesh = direct_model.get_mesh(cinfo, pars, dim=dim)
         ref = formula(defn, cinfo, mesh, q, dim, cutoff, mode)
         if ref["invalid"]:
@@ -404,7 +434,8 @@ def run_case(case, rec):
         if ref["invalid"] and ref["W"] == 0 and all(len(m[1]) == 1 for m in mesh[2:2 + cinfo.parameters.npars]):
             key = "C09/python-monodisperse-invalid-point-not-excluded"
             rec.bucket("mono_invalid")
-        rec.check("python_equals_c", okpc, None if okpc else dict(ctx, python=[Ip, Fp[1:]], c=[Ic, Fc[1:]]), key=key)
+        if kp is not None:
+            rec.check("python_equals_c", okpc, None if okpc else dict(ctx, python=[Ip, Fp[1:]], c=[Ic, Fc[1:]]), key=key)
         okf = core.close(Ic, exp, 1e-10, 1e-12*sc)
         if ref["W"]:
             okf = okf and core.close(Fc[3], ref["shell"] if ref["shell"] else 1.0, 1e-10)
